@@ -4,5 +4,5 @@ import "verifharness/internal/sup"
 
 // Temporary registration of checks whose concurrent parts are not built yet.
 func init() {
-	sup.Register(&sup.Check{Prop: "C14", Level: "exploration", Rule: "tbd", Assumptions: kvAssume, Parts: c14SeqParts(), Floor: cellsFloor(100)})
+	sup.Register(&sup.Check{Prop: "C14", Level: "exploration", Rule: "tbd", Assumptions: kvAssume, Parts: append(c14SeqParts(), crashPart("pending-expiry", 30, 300, pendingExpiryScenario)), Floor: cellsFloor(100)})
 }
